@@ -620,8 +620,8 @@ Proof.
   simpl. rewrite nth_upd.
   assert (Hl : i <? length mains = true) by (apply Nat.ltb_lt; eapply nth_error_lt; eauto).
   rewrite Hl. destruct (Nat.eqb_spec m i) as [->|Hne]; simpl.
-  - rewrite log_from_upd_ge by lia. rewrite (nth_error_nth _ _ _ MWaitStd Hi), He.
-    destruct Hes as [->|->]; rewrite ?app_nil_r; auto.
+  - rewrite log_from_upd_ge by lia. rewrite (nth_of_nth_error _ _ _ MWaitStd Hi), He.
+    destruct Hes as [Hes | Hes]; rewrite Hes; rewrite ?app_nil_r; auto.
   - rewrite IH by lia. rewrite app_assoc. reflexivity.
 Qed.
 
@@ -678,12 +678,109 @@ Proof.
     + intro E; inversion E; subst. auto.
     + apply Cs.
   - rewrite Hlog, Cl. symmetry. eapply log_from_upd_app; eauto.
-    destruct Hes as [->|Hph]; auto. right.
+    destruct Hes as [Hes | Hph]; [rewrite Hes|]; auto. right.
     apply log_from_nil. intros j Hj.
     assert (Hjl : j < length (st_main s)) by lia.
     destruct (nth_error_ex _ _ Hjl) as [pcj Hpj].
-    rewrite (nth_error_nth _ _ _ MWaitStd Hpj).
+    rewrite (nth_of_nth_error _ _ _ MWaitStd Hpj).
     destruct (tphase pcj) eqn:T; auto.
     destruct (Co j pcj Hpj ltac:(lia)) as [_ O]. specialize (O i pc Hj Hi). lia.
   - exact Hp.
+Qed.
+
+Lemma map_seq_S {A} (f : nat -> A) k : map f (seq 0 (S k)) = map f (seq 0 k) ++ [f k].
+Proof. rewrite seq_S, map_app. reflexivity. Qed.
+
+Lemma InvC_step_main W s i pc s' :
+  Inv W s -> nth_error (st_main s) i = Some pc -> step_main s i pc = Some s' -> InvC s'.
+Proof.
+  intros [L A B C D] Hi H.
+  pose proof (ic_closed _ C i pc Hi) as Cci.
+  pose proof (ic_wake _ C i pc Hi) as Cwi.
+  pose proof (ic_panic _ C) as Cp.
+  pose proof (ia_total _ A) as At.
+  pose proof (ia_d3 _ A) as Ad. unfold nD3 in Ad.
+  pose proof (ib_ready _ B) as Br.
+  pose proof (sumn_ge md3 _ _ _ Hi) as G3.
+  pose proof (sumn_ge mclose _ _ _ Hi) as G4.
+  assert (Hin : i < st_n s) by (rewrite <- (il_main _ L); eapply nth_error_lt; eauto).
+  assert (Hnx : nxt (st_n s) i < st_n s) by (apply nxt_lt; auto).
+  main_cases pc H;
+    try (eapply (InvC_update s _ i _ _ []);
+         [eassumption|eassumption|eassumption|reflexivity|reflexivity| .. ];
+         simpl in *; rewrite ?app_nil_r; auto; try tauto; try lia; try discriminate;
+         try (split; [tauto|intros; discriminate]); fail).
+  - (* close(ready) on a closed channel: impossible *)
+    exfalso. simpl in *. destruct (all_false (sp_pool (st_pool s))); simpl in *; lia.
+  - (* close(quiescence) on a closed channel: impossible *)
+    exfalso. simpl in *. destruct (sp_zero (st_pool s)); simpl in *; lia.
+  - (* the leader passes WaitForAllReady *)
+    eapply (InvC_update s _ i _ _ []);
+      [eassumption|eassumption|eassumption|reflexivity|reflexivity| .. ];
+      simpl in *; rewrite ?app_nil_r; auto; try tauto; try lia; try discriminate.
+    + split; [tauto|]. intros k E. inversion E. lia.
+    + intros _. split; auto. intros j pcj Hj Hpj. exfalso.
+      apply nth_error_lt in Hpj. rewrite (il_main _ L) in Hpj.
+      unfold is_leader in Heqb0. apply Nat.eqb_eq in Heqb0. lia.
+  - (* a sleeping member is woken *)
+    eapply (InvC_update s _ i _ _ []);
+      [eassumption|eassumption|eassumption|reflexivity|reflexivity| .. ];
+      simpl in *; rewrite ?app_nil_r; auto; try tauto; try lia; try discriminate.
+    + split; [tauto|]. intros k E. inversion E. lia.
+    + intros _.
+      pose proof (ic_sleep _ C i Hi) as Nl. unfold is_leader in Nl. apply Nat.eqb_neq in Nl.
+      assert (Hsi : S i < length (st_main s)) by (rewrite (il_main _ L); lia).
+      destruct (nth_error_ex _ _ Hsi) as [pcs Hps].
+      destruct (ic_wake _ C (S i) pcs Hps) as [_ Hw2]. simpl in Hw2. rewrite Heqb in Hw2.
+      assert (Hph : tphase pcs = 2) by (destruct pcs; simpl in *; try discriminate; reflexivity).
+      destruct (ic_order _ C (S i) pcs Hps ltac:(lia)) as [Q O]. split; auto.
+      intros j pcj Hj Hpj. destruct (Nat.eq_dec j (S i)) as [->|Hne].
+      * congruence.
+      * apply (O j pcj); auto. lia.
+  - (* Cleanup closes listener k, more to come *)
+    destruct Cci as [Cc1 Cc2]. specialize (Cc2 k eq_refl). simpl in Cc1.
+    apply Nat.ltb_lt in Heqb.
+    assert (Hcl : i <? length (st_closed s) = true) by (apply Nat.ltb_lt; rewrite (il_closed _ L); auto).
+    eapply (InvC_update s _ i _ _ [EClose i k]);
+      [eassumption|eassumption|eassumption|reflexivity|reflexivity| .. ];
+      simpl in *; auto; try tauto; try lia; try discriminate.
+    + rewrite nth_upd, Nat.eqb_refl, Hcl. simpl. split; auto. intros k' E. inversion E. lia.
+    + intros j Hj. rewrite nth_upd. replace (j =? i) with false by (symmetry; apply Nat.eqb_neq; auto). reflexivity.
+    + intros _. apply (ic_order _ C i _ Hi). simpl. lia.
+    + exact (map_seq_S (EClose i) k).
+  - (* Cleanup closes the last listener *)
+    destruct Cci as [Cc1 Cc2]. specialize (Cc2 k eq_refl). simpl in Cc1.
+    apply Nat.ltb_ge in Heqb. assert (Ek : S k = st_n s) by lia.
+    assert (Hcl : i <? length (st_closed s) = true) by (apply Nat.ltb_lt; rewrite (il_closed _ L); auto).
+    eapply (InvC_update s _ i _ _ [EClose i k]);
+      [eassumption|eassumption|eassumption|reflexivity|reflexivity| .. ];
+      simpl in *; auto; try tauto; try lia; try discriminate.
+    + rewrite nth_upd, Nat.eqb_refl, Hcl. simpl. split; auto. intros; discriminate.
+    + intros j Hj. rewrite nth_upd. replace (j =? i) with false by (symmetry; apply Nat.eqb_neq; auto). reflexivity.
+    + intros _. apply (ic_order _ C i _ Hi). simpl. lia.
+    + rewrite <- Ek. exact (map_seq_S (EClose i) k).
+  - (* Wake: awake.Swap(true) returned false *)
+    assert (Haw : nxt (st_n s) i <? length (st_awake s) = true) by (apply Nat.ltb_lt; rewrite (il_awake _ L); auto).
+    eapply (InvC_update s _ i _ _ []);
+      [eassumption|eassumption|eassumption|reflexivity|reflexivity| .. ];
+      simpl in *; rewrite ?app_nil_r; auto; try tauto; try lia; try discriminate.
+    + split; [tauto|intros; discriminate].
+    + rewrite nth_upd, Nat.eqb_refl, Haw. simpl. tauto.
+    + intros j Hj. rewrite nth_upd. replace (j =? nxt (st_n s) i) with false by (symmetry; apply Nat.eqb_neq; auto). auto.
+    + intros _. apply (ic_order _ C i _ Hi). simpl. lia.
+  - (* Wake: close(wake) *)
+    assert (Hwk : nxt (st_n s) i <? length (st_wake s) = true) by (apply Nat.ltb_lt; rewrite (il_wake _ L); auto).
+    eapply (InvC_update s _ i _ _ [EWake (nxt (st_n s) i)]);
+      [eassumption|eassumption|eassumption|reflexivity|reflexivity| .. ];
+      simpl in *; auto; try tauto; try lia; try discriminate.
+    + split; [tauto|intros; discriminate].
+    + rewrite nth_upd, Nat.eqb_refl, Hwk. simpl. tauto.
+    + intros j Hj. rewrite nth_upd. replace (j =? nxt (st_n s) i) with false by (symmetry; apply Nat.eqb_neq; auto). auto.
+    + intros _. apply (ic_order _ C i _ Hi). simpl. lia.
+  - (* wgRecursive.Wait() returns *)
+    eapply (InvC_update s _ i _ _ []);
+      [eassumption|eassumption|eassumption|reflexivity|reflexivity| .. ];
+      simpl in *; rewrite ?app_nil_r; auto; try tauto; try lia; try discriminate.
+    + split; [tauto|intros; discriminate].
+    + intros _. apply (ic_order _ C i _ Hi). simpl. lia.
 Qed.
